@@ -391,7 +391,9 @@ def is_cocircular(
     if a.dim == 1:
         return np.isclose(np.imag(crossratio(a, b, c, d)), 0, rtol, atol)
 
-    elif a.dim > 2:
+    coplanar: npt.NDArray[np.bool_] | bool = True
+    if a.dim > 2:
+        coplanar = is_coplanar(a, b, c, d)
         e = join(a, b, c)
         basis = e.basis_matrix
         a = a._matrix_transform(basis)
@@ -401,7 +403,7 @@ def is_cocircular(
 
     i = crossratio(a, b, c, d, I)
     j = crossratio(a, b, c, d, J)
-    return np.isclose(i, j, rtol, atol)
+    return coplanar & np.isclose(i, j, rtol, atol)
 
 
 def is_perpendicular(
